@@ -62,7 +62,7 @@ manifest = {
     }],
     "checks": checks,
     "not_applicable": na,
-    "notes": "See DESIGN.md.  exit 2 from a check means the checker itself failed (never a verdict).  Extra checks beyond the listed properties (spec growth, not part of this manifest): bin/check X01|X02|X03 quick|thorough (netutil label algebra/host-port/IP helpers/subnet sets; errors and validate algebra; schedules, context constructors, service helpers, Pool).  seeded/ holds independently seeded changes and which check catches each (DESIGN.md section 13).",
+    "notes": "See DESIGN.md.  exit 2 from a check means the checker itself failed (never a verdict).  Extra checks beyond the listed properties (spec growth, not part of this manifest): bin/check X01..X05 quick|thorough (netutil label algebra/host-port/IP helpers/subnet sets; errors and validate algebra; schedules, context constructors, service helpers, Pool; slog helpers; web helpers).  seeded/ holds ~400 independently seeded changes and which check catches each (DESIGN.md section 13); seeded/not-kept and seeded/undetected hold the ones that are outside a statement or not detected yet.",
 }
 (ROOT / "MANIFEST.json").write_text(json.dumps(manifest, indent=1) + "\n")
 print("MANIFEST.json: %d checks, %d not_applicable" % (len(checks), len(na)))
